@@ -444,8 +444,18 @@ func replayWitness(wpath string, w *Witness, prog *ssa.Program) string {
 	if rel == "" {
 		dir = "."
 	}
-	cmd := exec.Command("go", "test", "-tags", "verif", "-overlay", ovJSON, "-vet=off", "-count=1", "-run", "^TestZZReplay$", "-v", dir)
-	cmd.Dir = repoDir
+	// build the test binary (the package directory may exist only in the
+	// overlay, so "go test" could not chdir into it), then run it
+	bin := filepath.Join(tmp, "replay.test")
+	build := exec.Command("go", "test", "-c", "-tags", "verif", "-overlay", ovJSON, "-vet=off", "-o", bin, dir)
+	build.Dir = repoDir
+	build.Env = goEnv()
+	if bout, err := build.CombinedOutput(); err != nil {
+		os.WriteFile(strings.TrimSuffix(wpath, ".witness.json")+".replay.log", bout, 0o644)
+		return "error: build: " + truncate(string(bout), 300)
+	}
+	cmd := exec.Command(bin, "-test.run", "^TestZZReplay$", "-test.v", "-test.count=1")
+	cmd.Dir = tmp
 	cmd.Env = append(goEnv(), "SV_WITNESS="+wpath)
 	done := make(chan struct{})
 	var out []byte
